@@ -213,3 +213,26 @@ Example C15_example :
   /\ hdr_accepts 1000 60000000000 5 68719476735 = true /\ hdr_accepts 1000 60000000000 5 68719476736 = false
   /\ accepts_counter (-1) = false.
 Proof. repeat split; vm_compute; reflexivity. Qed.
+
+(* 8. Oracle soundness.  The executable oracle [c15_ok_w] (Model/RecorderOk.v) is what the
+      run-time check applies to the observations of the Go recorders: per call the points
+      handed to the collector (histograms through their non-zero counts, [observe]) and
+      EndTest's result, plus the TimerManager call counts.  It accepts the model's own
+      observation [model_obs] of the same case - for every wrapper, recorder kind, interval,
+      construction time, failure schedule and well-formed call history, with the readings
+      "before" and "after" each call both equal to the model's clock input (the model has one
+      reading per call; the driver passes the harness's two readings, between which the
+      recorder's own reading lies).  So a VIOL of the check is a difference between the
+      implementation and what the theorems above describe, never an artefact of the oracle. *)
+From FV.Proofs Require Import OracleC15.
+
+Theorem C15_oracle_sound : forall W K iv last0 fl h, wellformed W h = true ->
+  c15_ok_w W K iv last0 fl h h (fst (model_obs W K iv last0 fl h)) (snd (model_obs W K iv last0 fl h)) = true.
+Proof. exact c15_oracle_sound. Qed.
+Print Assumptions C15_oracle_sound.
+
+(* the unwrapped oracle [c15_ok] on the outputs of [run] *)
+Theorem C15_oracle_sound_plain : forall K iv last0 fl h,
+  c15_ok K iv last0 fl h h (map observe_out (snd (run K iv last0 (fails_of fl) h))) = true.
+Proof. exact c15_oracle_sound_plain. Qed.
+Print Assumptions C15_oracle_sound_plain.
